@@ -61,10 +61,12 @@ func OracleRef(o RefOpts) SeqOracle {
 					}
 					pending = append(pending, more...)
 				case e.Result == refmodel.TIMEOUT && isQueued(m, e):
-					if err := m.Timeout(e.Key[15], e.Req); err != nil {
+					more, err := m.Timeout(e.Key[15], e.Req)
+					if err != nil {
 						add("bad-timeout", where+": "+err.Error())
 						return vs
 					}
+					pending = append(pending, more...)
 				default:
 					got = append(got, e)
 				}
